@@ -40,7 +40,8 @@ EvRet ==
               \cup Flag("C17_ExactConsumption", P.k # "more" /\ n <= Len(buf) => E.rest = Drop(buf, n))
               \cup (IF E.lvl = "reply" /\ k < Len(Sent)
                     THEN Flag("C17_SenderWire", SenderOk(S))
-                         \cup Flag("C17_EscClass", E.esc # <<>> => E.esc[1] = E.code[1])
+                         \cup Flag("C17_EscClass", /\ (E.esc # <<>> => E.esc[1] = E.code[1])
+                                                   /\ (S.esc # <<>> => S.esc[1] = S.code[1]))       \* ... on the sending object too
                          \cup Flag("C17_EscRoundTrip",
                                    InDomain(S) => /\ E.raw = Norm(S.raw)
                                                   /\ (S.esc # <<>> => E.esc = S.esc)
